@@ -140,6 +140,11 @@ func runPRScenario(t *testing.T, seed int64, nEvents int, st *prStats) []string 
 			}
 			st.events++
 			prCheckInflight(s, st, &book)
+			if ev%7 == 0 {
+				// C15: per-stream buffered amount = pending + un-acked in-flight bytes, also while chunks are abandoned
+				s.checkBuffered(0)
+				s.checkBuffered(1)
+			}
 			if len(s.fails) > 0 {
 				break
 			}
@@ -170,6 +175,11 @@ func runPRScenario(t *testing.T, seed int64, nEvents int, st *prStats) []string 
 				}
 			}
 			prFinalChecks(s, &book)
+			s.checkBuffered(0)
+			s.checkBuffered(1)
+			if healed {
+				prCheckDrained(s)
+			}
 		}
 		for _, p := range s.wire {
 			if p.pkt == nil {
@@ -220,6 +230,28 @@ func prCheckInflight(s *sim, st *prStats, book *prBook) {
 		}
 		a.lock.RUnlock()
 		// wire view: transmissions per TSN are checked against the policy of the stream in prFinalChecks
+	}
+}
+
+// prCheckDrained: once everything outstanding is acknowledged or abandoned and forwarded, the buffered amount
+// of every stream is zero (C15: it shrinks by the bytes acknowledged or skipped as abandoned).
+func prCheckDrained(s *sim) {
+	for side := 0; side < 2; side++ {
+		a := s.assoc[side]
+		if a == nil || a.BufferedAmount() != 0 {
+			continue
+		}
+		a.lock.RLock()
+		streams := map[uint16]*Stream{}
+		for k, v := range a.streams {
+			streams[k] = v
+		}
+		a.lock.RUnlock()
+		for sid, st := range streams {
+			if n := st.BufferedAmount(); n != 0 {
+				s.fail("C15", fmt.Sprintf("stream buffered amount %d although nothing is pending or in flight any more (pr-stream-buffered-not-zero-after-drain): side=%d sid=%d", n, side, sid))
+			}
+		}
 	}
 }
 
